@@ -813,7 +813,19 @@ func vf23Run(c *vf23Case, fast bool) *vf23Result {
 		return res
 	}
 	if res.cli.err != nil {
-		// Start reported an error: the connection is dead; Close must still return
+		// Start reported an error: the connection is dead; a server flight that was already in transit may still be
+		// handed to HandleData (and the transport may still set its parameters): both must return, as must Close
+		if c.OrderKeys != nil && len(c.OrderKeys) > 0 && c.OrderKeys[0]%2 == 0 {
+			if !call(res.cli, "SetTransportParameters-after-failed-Start", "(*UQUICConn).SetTransportParameters", func() error { cq.SetTransportParameters([]byte{1, 2}); return nil }) {
+				return res
+			}
+		}
+		if !call(res.cli, "HandleData-after-failed-Start", "(*UQUICConn).HandleData", func() error {
+			cq.HandleData(QUICEncryptionLevelInitial, []byte{2, 0, 0, 4, 3, 3, 0, 0})
+			return nil
+		}) {
+			return res
+		}
 		call(res.cli, "Close", "(*UQUICConn).Close", func() error { cq.Close(); return nil })
 		sq.Close()
 		return res
